@@ -291,18 +291,21 @@ fn make_plan(rng: &mut Rng, seed: u64) -> Plan {
     let fork_at = rng.range(len - 12, len - 5);
     // the first proof ends a little above the fork point, so that the later fork switch is within the remembered last-N headers
     let h1 = (fork_at + rng.range(1, 4)).min(len - 2);
-    if seed % 3 == 1 {
+    if seed % 4 != 3 {
         // pending records above the fork point at the moment of the fork switch: filtering starts just below the fork point, one
-        // batch ends at it, the next one lies entirely above it; nothing is downloaded before the peer switches to the other branch.
+        // batch ends at it, the next one lies entirely above it; the peer then switches to the other branch.
         // (A crash inside the switch restarts the client with the records in the store only.)
         let h1 = fork_at + 3;
         let list: Vec<(usize, bool, u64)> = (0..3usize).map(|i| (i, true, fork_at - 2)).collect();
         let mut ops = vec![Op::Init, Op::Prove { on_fork: false, height: h1 }, Op::SetScripts { cmd: 0, list },
             Op::Filters { batch: 2 }, Op::Filters { batch: 8 }, Op::Prove { on_fork: true, height: h1 + 7 },
             Op::Download, Op::Filters { batch: 8 }, Op::Download, Op::Filters { batch: 8 }, Op::Download];
-        // every other targeted history: the blocks above the fork point are downloaded and indexed BEFORE the switch, so that the
-        // rollback has real index entries to undo (and the new branch puts other blocks at the same heights)
-        if seed % 6 == 4 { ops.insert(5, Op::Download); }
+        // variant 1: the blocks above the fork point are downloaded and indexed BEFORE the switch, so that the rollback has real
+        // index entries to undo (and the new branch puts other blocks at the same heights)
+        if seed % 4 >= 1 { ops.insert(5, Op::Download); }
+        // variant 2: ... and then the user re-registers one script from an older block (partial): filter progress is rewound BELOW
+        // the fork point while the index of the other scripts still reaches the old tip - the switch has to roll that index back
+        if seed % 4 == 2 { ops.insert(6, Op::SetScripts { cmd: 1, list: vec![(0, true, fork_at.saturating_sub(6))] }); }
         // last-N 4: the switch is 7 blocks ahead (sampled regime, the request starts at the stored tip, the honest answer carries a
         // reorg section) and 3 blocks deep (the fork point is remembered): the one path on which commit_prove_state rolls back
         return Plan { seed, len, fork_at, ops, last_n: 4 };
@@ -358,7 +361,7 @@ fn judge(w: &mut World, starts: &[(usize, bool, u64)]) -> Snapshot {
         let missing: Vec<_> = expect.iter().filter(|c| !got.contains(c)).map(|c| (c.0, c.1, c.2)).collect();
         let phantom: Vec<_> = got.iter().filter(|c| c.0 > from && !live_any.contains(c)).map(|c| (c.0, c.1, c.2)).collect();
         if !missing.is_empty() || !phantom.is_empty() {
-            problems.push(format!("[C08-activity-lost-after-crash] script {} ({}) is reported as filtered up to {} but its index misses {:?} and has extra {:?}", sid + 1, if *is_lock { "lock" } else { "type" }, number, missing, phantom));
+            problems.push(format!("[C08-activity-lost-after-crash]{} script {} ({}) is reported as filtered up to {} but its index misses {:?} and has extra {:?}", if w.on_fork && !phantom.is_empty() { " [C04-index-keeps-abandoned-branch]" } else { "" }, sid + 1, if *is_lock { "lock" } else { "type" }, number, missing, phantom));
         }
     }
     // C16: whatever get_transaction reports as committed is committed by the block it names
